@@ -2888,7 +2888,7 @@ _old_units_for = units_for
 
 def units_for(prop: str):  # noqa: F811
     out = _old_units_for(prop)
-    for u in reset_units() + send_signal_units() + orchestrator_cancel_units() + retry_units():
+    for u in reset_units() + send_signal_units() + orchestrator_cancel_units() + retry_units() + sibling_condition_units():
         u.obligations = [o for o in u.obligations if o.name.startswith(prop + "/")]
         if u.obligations:
             u.prop = prop
@@ -3235,3 +3235,59 @@ def retry_units():
                  params=[], names=STATUS_NAMES, registry=reg, replayable=False, run=_retry_run,
                  obligations=[Obl("C07/retry/never-reports-a-lost-write-as-done", _retry_post, when="any"),
                               Obl("C04/retry/never-reports-a-lost-write-as-done", _retry_post, when="any")])]
+
+
+# ---- the sibling fast paths of the stage starter (C04 / C11): a stage is never refused because of ITSELF
+def _sibling_cond_run(fn):
+    def run(ctx):
+        from .hcommon import make_handler
+
+        I = ctx.I
+        h = make_handler(I, H + "start_stage.handler:StartStageHandler", None)
+        stage = T.new_symbolic(I, "StageExecution", "stage")
+        ctx.args["stage"] = stage
+        ctx.extra["handler"] = h
+        return I.call(I.getattr(h, fn), [stage], {})
+    return run
+
+
+def _sibling_cond_post(kind):
+    def check(ctx):
+        """True exactly when ANOTHER stage of the execution (a different id) has the same group / key and has left NOT_STARTED
+        (deferred choice) / is RUNNING (mutex); False when the stage has no group / key.  In particular the stage itself --
+        which a racing duplicate StartStage may already have moved to RUNNING -- never counts."""
+        I = ctx.I
+        if ctx.exc is not None:
+            return [("only-load-failures-escape", z3.BoolVal("WorkflowNotFoundError" in I.exc_class_names(ctx.exc)))]
+        stage = ctx.args["stage"]
+        res = I.ops.truthy(ctx.result)
+        field = "deferred_choice_group" if kind == "choice" else "mutex_key"
+        mine = I.getattr(stage, field)
+        has = I.ops.truthy(mine)
+        loads = [e for e in ctx.st.effects if e.kind == "load" and e.data.get("kind") == "execution"]
+        if not loads:
+            return [("false-without-a-group", z3.And(z3.Not(res), z3.Not(has)))]
+        ex = loads[-1].data["obj"]
+        stages = I.getattr(ex, "stages")
+        env = {"stage": stage, "all_stages": stages}
+        other = ("exists(all_stages, lambda s: s.id != stage.id and s.deferred_choice_group == stage.deferred_choice_group and s.status != S.NOT_STARTED)"
+                 if kind == "choice" else
+                 "exists(all_stages, lambda s: s.id != stage.id and s.mutex_key == stage.mutex_key and s.status == S.RUNNING)")
+        return [("true-iff-another-stage-holds-it", res == ctx.ev(other, env)), ("loaded-the-stages-execution", has)]
+    return check
+
+
+def sibling_condition_units():
+    from pyvc.verify import Unit
+    from .common import STATUS_NAMES
+
+    C = H + "start_stage.conditions:StartStageConditionsMixin."
+    reg = start_stage_registry()
+    for n in ("_is_mutex_blocked", "_is_deferred_choice_claimed"):
+        reg.contracts.pop("*." + n, None)  # the real functions run in these units
+    out = []
+    for fn, kind, props in (("_is_deferred_choice_claimed", "choice", ("C04", "C11")), ("_is_mutex_blocked", "mutex", ("C04", "C11"))):
+        out.append(Unit(prop="*", name=f"L2/StartStage.{fn}", func=C + fn, params=[], names=STATUS_NAMES, registry=reg, replayable=False,
+                        run=_sibling_cond_run(fn),
+                        obligations=[Obl(f"{p}/sibling-check/{fn}", _sibling_cond_post(kind), when="any") for p in props]))
+    return out
